@@ -259,11 +259,29 @@ func checkCtor(c CtorCase) *vk.Violation {
 		if p.AuthenticatorSource != string(want) || p.SourceAddr != c.Account {
 			return vk.Violf("cmpp20.NewConnect/digest", c, "NewConnect: authenticator %x, MD5 over its own timestamp %d gives %x", p.AuthenticatorSource, p.Timestamp, want)
 		}
+		// the PDU is the caller's: it rotates the secret (same account, same timestamp) and sets the new
+		// digest itself; what goes on the wire must be what the PDU holds
+		other := refRequestAuth("cmpp20", []byte(c.Account), []byte(c.Secret+"-rotated"), p.Timestamp)
+		p.AuthenticatorSource = string(other)
+		if img, err := p.IEncode(); err == nil {
+			q := new(cmpp20.PduConnect)
+			if err := q.IDecode(img); err != nil || q.AuthenticatorSource != string(other) {
+				return vk.Violf("cmpp20.NewConnect/authenticator-set-by-caller-not-sent", c, "a PDU from NewConnect whose AuthenticatorSource the caller set to %x arrives with %x (%v): the peer's recomputation with the new secret fails", other, q.AuthenticatorSource, err)
+			}
+		}
 	case "smgp30.NewLogin":
 		p := smgp30.NewLogin(c.Account, c.Secret, 7)
 		want := refRequestAuth("smgp30", []byte(c.Account), []byte(c.Secret), p.Timestamp)
 		if p.AuthenticatorClient != string(want) || p.ClientID != c.Account {
 			return vk.Violf("smgp30.NewLogin/digest", c, "NewLogin: authenticator %x, MD5 over its own timestamp %d gives %x", p.AuthenticatorClient, p.Timestamp, want)
+		}
+		other := refRequestAuth("smgp30", []byte(c.Account), []byte(c.Secret+"-rotated"), p.Timestamp)
+		p.AuthenticatorClient = string(other)
+		if img, err := p.IEncode(); err == nil {
+			q := new(smgp30.Login)
+			if err := q.IDecode(img); err != nil || q.AuthenticatorClient != string(other) {
+				return vk.Violf("smgp30.NewLogin/authenticator-set-by-caller-not-sent", c, "a PDU from NewLogin whose AuthenticatorClient the caller set to %x arrives with %x (%v)", other, q.AuthenticatorClient, err)
+			}
 		}
 	}
 	return nil
